@@ -132,7 +132,14 @@ def _timed_of(seq):
     if pk is None:
         return None
     kind, timed, dur = pk
-    order = offs_first(timed) if kind != "rel" else timed
+    order = orc.abs_order(timed) if kind != "rel" else timed
+    if kind == "abs" and getattr(seq, "_rel_stale", True) is False and getattr(seq, "_rel", None) is not None:
+        # both views fresh: the relative list keeps its own equal-tick order (e.g. after set_channel merged two channels an
+        # on may precede the off of the same key at one tick there while the regenerated absolute list is sorted); an input
+        # that is ill-formed in either stored order is not a well-formed input
+        rt, _ = view_rel(seq._rel)
+        if any(p[0] != "nonpositive" for p in automaton(rt)[0]):
+            order = rt
     return kind, timed, order, dur
 
 
@@ -294,7 +301,7 @@ def install(names=None):
     if "quantise" in todo:
         def snap_q(self):
             timed, d = view_abs(self)
-            pr, notes = automaton(offs_first(timed))
+            pr, notes = automaton(orc.abs_order(timed))
             pre = {id(m): (m.time,) + fields(m) for m in self._messages}
             return (not pr, pre, [(c, p, on, of, v) for (c, p, on, of, v, a, b) in notes],
                     sorted(fields(m) for t, m in timed if mtype(m) not in NOTE_TYPES),
@@ -330,7 +337,7 @@ def install(names=None):
                     byf1[e[1:]].append(e[0])
                 bad = [(f, a, b) for f in byf0 for a, b in zip(sorted(byf0[f]), sorted(byf1[f])) if abs(a - b) > mx]
                 rec("C05", "quantise", "nonnote_displacement", not bad, bad[:3])
-            pr, notes = automaton(offs_first(timed))
+            pr, notes = automaton(orc.abs_order(timed))
             rec("C05", "quantise", "pairing", not pr, (steps, pr[:3]))
             # every resulting note is the image of an original note of the same channel/pitch/velocity
             by0 = collections.defaultdict(list)
@@ -368,7 +375,7 @@ def install(names=None):
     if "qnl" in todo:
         def snap_qnl(self):
             timed, d = view_abs(self)
-            pr, notes = automaton(offs_first(timed))
+            pr, notes = automaton(orc.abs_order(timed))
             return not pr, [(c, p, on, of, v) for (c, p, on, of, v, a, b) in notes], orc.nonnote_events(timed)
 
         @_guard
@@ -379,7 +386,7 @@ def install(names=None):
                 vac("qnl", "all")
                 return True
             timed, d = view_abs(self)
-            pr, notes = automaton(offs_first(timed))
+            pr, notes = automaton(orc.abs_order(timed))
             rec("C06", "qnl", "pairing", not pr, pr[:3])
             non = orc.nonnote_events(timed)
             rec("C06", "qnl", "nonnotes_untouched", non == non0, (_msdiff(non0, non)[:3], _msdiff(non, non0)[:3]))
@@ -710,7 +717,7 @@ def install(names=None):
     if "equals" in todo:
         def _esnap(a):
             timed, dur = view_abs(a)
-            pr, notes = automaton(offs_first(timed))
+            pr, notes = automaton(orc.abs_order(timed))
             ns = sorted((c, p, on, of - on, v) for (c, p, on, of, v, _, _) in notes)
             ts = sorted((t, m.channel, m.numerator, m.denominator) for t, m in timed if mtype(m) == TS)
             ks = sorted((t, m.channel, orc.keyval(m.key)) for t, m in timed if mtype(m) == KS)
